@@ -35,6 +35,8 @@ pub struct GenCfg {
     /// percentage of creations / volume modifications with volume 0 (only where the oracle is a
     /// differential between two real objects and the property has no volume clause: C14)
     pub zero_vol_pct: u32,
+    /// percentage of market-case operations applied to the asset's own book (`get_order_book_mut`)
+    pub direct_pct: u32,
 }
 
 impl GenCfg {
@@ -60,6 +62,7 @@ impl GenCfg {
             market_pct: 20,
             narrow: false,
             zero_vol_pct: 0,
+            direct_pct: 0,
         }
     }
 }
@@ -199,7 +202,7 @@ fn op_strategy(cfg: &GenCfg, f: &Frame) -> BoxedStrategy<Op> {
 
 fn tick_strategy(wide: bool) -> BoxedStrategy<u32> {
     if wide {
-        prop_oneof![6 => 1u32..=10, 1 => Just(16u32), 1 => Just(64u32), 1 => Just(1000u32), 1 => Just(65_536u32), 1 => Just(1_000_000u32), 1 => Just(1u32 << 27)].boxed()
+        prop_oneof![6 => 1u32..=10, 1 => Just(16u32), 1 => Just(64u32), 1 => Just(1000u32), 1 => Just(65_536u32), 1 => Just(1_000_000u32), 1 => Just(1u32 << 27), 1 => prop_oneof![Just(1u32 << 28), Just(1u32 << 29), Just(500_000_000u32)]].boxed()
     } else {
         (1u32..=10).boxed()
     }
@@ -212,7 +215,12 @@ pub fn book_case_strategy(cfg: GenCfg) -> BoxedStrategy<BookCase> {
         tick_strategy(wide),
         1usize..=crate::dynbook::MAX_LEVELS,
         4u32..1000,
-        if wide { prop_oneof![3 => 0u64..1000, 1 => any::<u64>().prop_map(|t| t >> 2)].boxed() } else { (0u64..1000).boxed() },
+        if wide {
+            // also clocks that start just below a power-of-two boundary, so that the history crosses it
+            prop_oneof![3 => 0u64..1000, 1 => any::<u64>().prop_map(|t| t >> 2), 2 => (proptest::sample::select(vec![8u32, 16, 24, 31, 32, 40, 48, 56, 62]), 1u64..4, 0u64..40).prop_map(|(p, m, d)| ((1u64 << p).saturating_mul(m).min(1 << 62)).saturating_sub(d))].boxed()
+        } else {
+            (0u64..1000).boxed()
+        },
         0u32..100,
     );
     head.prop_flat_map(move |(tick, levels, mid, t0, off)| {
@@ -307,11 +315,12 @@ pub fn market_case_strategy(cfg: GenCfg, max_assets: usize) -> BoxedStrategy<Mar
             .map(|(a, (tick, mid))| {
                 let mid = (*mid).min(kmax(*tick).saturating_sub(4)).max(4);
                 let f = Frame { tick: *tick, mid, wide: cfg.wide, offgrid: cfg.offgrid, narrow: cfg.narrow };
-                (1u32, op_strategy(&cfg, &f).prop_map(move |op| (a as u8, op)).boxed())
+                let dp = cfg.direct_pct;
+                (1u32, (op_strategy(&cfg, &f), 0u32..100).prop_map(move |(op, r)| (a as u8 | if r < dp { 0x80 } else { 0 }, op)).boxed())
             })
             .collect();
         let _ = n;
-        proptest::collection::vec(Union::new_weighted(per_asset), 0..=cfg.max_len).prop_map(move |ops| MarketCase { ticks: ticks.clone(), levels, trading, t0, ops, zero_vols: cfg.zero_vol_pct > 0 })
+        proptest::collection::vec(Union::new_weighted(per_asset), 0..=cfg.max_len).prop_map(move |ops| MarketCase { ticks: ticks.clone(), levels, trading, t0, ops, zero_vols: cfg.zero_vol_pct > 0, direct_ops: cfg.direct_pct > 0 })
     })
     .boxed()
 }
@@ -412,7 +421,9 @@ pub fn env_case_strategy(cfg: EnvGenCfg) -> BoxedStrategy<EnvCase> {
         } else if is_large {
             (prop_oneof![Just(64u64), Just(100u64), Just(256u64)].boxed(), 30..=60)
         } else {
-            (prop_oneof![Just(16u64), Just(17u64), Just(100u64), Just(1000u64), Just(1_000_000u64)].boxed(), 0..=cfg.max_batch)
+            // small step sizes as well: batches are cut to the step size below, so that batches of EXACTLY
+            // step-size instructions (the largest the property allows) are a regular class
+            (prop_oneof![2 => Just(16u64), 1 => Just(17u64), 2 => Just(100u64), 2 => Just(1000u64), 1 => Just(1_000_000u64), 4 => 1u64..=12].boxed(), 0..=cfg.max_batch)
         };
         let mut icfg = cfg.clone();
         if is_large {
@@ -428,6 +439,10 @@ pub fn env_case_strategy(cfg: EnvGenCfg) -> BoxedStrategy<EnvCase> {
                 for s in steps.iter_mut() {
                     let cap = (4 * step_size as usize).max(2);
                     s.instrs.truncate(cap);
+                }
+            } else {
+                for s in steps.iter_mut() {
+                    s.instrs.truncate(step_size.min(1 << 20) as usize);
                 }
             }
             EnvCase { kind_assets, levels, ticks: ticks.clone(), t0, step_size, trading, seed, steps, drain }
